@@ -43,6 +43,12 @@ type Resp struct {
 	Err    bool              `json:"err,omitempty"` // transport error instead of a response
 	// CutAt > 0: the connection breaks after that many body bytes (the read returns an error)
 	CutAt int `json:"cut_at,omitempty"`
+	// Gzip: the response is gzip-encoded and larger than the decoder's read-ahead. The WARC client hands
+	// Zeno a decoding reader whose Close does not close the connection underneath (gzip.Reader.Close never
+	// does): only reading to EOF lets the connection, its recorder and the feedback signal complete.
+	Gzip bool `json:"gzip,omitempty"`
+	// DelayMs: the server takes that long (virtual time) before it answers
+	DelayMs int `json:"delay_ms,omitempty"`
 }
 
 // Page is the behaviour of one URL: Script[i] answers attempt i, the last entry repeats.
@@ -114,6 +120,7 @@ type World struct {
 	attempts   map[string]int
 	Finished   []Msg
 	Produced   []Msg
+	ConnLeaked int // connections left open for good (see Resp.Gzip)
 	BodiesOpen int
 
 	ReactorOut, PreOut, ArchOut, PostOut chan *models.Item
@@ -370,6 +377,9 @@ func (t *transport) RoundTrip(req *http.Request) (*http.Response, error) {
 	} else {
 		r = Resp{Status: 404, Body: "not found"}
 	}
+	if r.DelayMs > 0 {
+		time.Sleep(time.Duration(r.DelayMs) * time.Millisecond)
+	}
 	if r.Err {
 		w.mu.Lock()
 		f.End = x.StepIndex()
@@ -409,7 +419,7 @@ func (t *transport) RoundTrip(req *http.Request) (*http.Response, error) {
 	if r.CutAt > 0 {
 		rd = &cutReader{r: rd, left: r.CutAt}
 	}
-	resp.Body = &body{r: rd, w: w, f: f, fb: fb}
+	resp.Body = &body{r: rd, w: w, f: f, fb: fb, gzip: r.Gzip}
 	return resp, nil
 }
 
@@ -447,11 +457,16 @@ type body struct {
 	f      *Fetch
 	fb     chan struct{}
 	closed bool
+	gzip   bool
+	eof    bool
 }
 
 func (b *body) Read(p []byte) (int, error) {
 	n, err := b.r.Read(p)
 	b.f.BodyRead += n
+	if err != nil {
+		b.eof = true // EOF or a broken connection: either way the connection is done
+	}
 	return n, err
 }
 
@@ -461,6 +476,14 @@ func (b *body) Close() error {
 	}
 	b.closed = true
 	w := b.w
+	if b.gzip && !b.eof {
+		// closed before the end of a gzip-decoded body: the connection stays open, nothing is recorded,
+		// nobody signals the feedback channel
+		w.mu.Lock()
+		w.ConnLeaked++
+		w.mu.Unlock()
+		return nil
+	}
 	w.mu.Lock()
 	b.f.End = vsched.Cur().StepIndex()
 	w.BodiesOpen--
